@@ -477,7 +477,17 @@ def call_sequence(items, reuse_objects=None):
             kept[i] = objs
             before, files_before = fingerprint(objs), _tree_hash(it['cwd'])
             try:
-                res = morph_kgc.materialize_set(it['config'], objs) if objs else morph_kgc.materialize_set(it['config'])
+                entry = it.get('entry', 'set')
+                if entry == 'rdflib':
+                    import rdflib
+                    g = morph_kgc.materialize(it['config'], objs) if objs else morph_kgc.materialize(it['config'])
+                    res = set(' '.join('_:b' if isinstance(t, rdflib.BNode) else t.n3() for t in tr) for tr in g)
+                elif entry == 'oxigraph':
+                    import re as _re
+                    st = morph_kgc.materialize_oxigraph(it['config'], objs) if objs else morph_kgc.materialize_oxigraph(it['config'])
+                    res = set(_re.sub(r'_:[0-9a-f]{32}', '_:b', str(q)) for q in st)
+                else:
+                    res = morph_kgc.materialize_set(it['config'], objs) if objs else morph_kgc.materialize_set(it['config'])
                 r = {'lines': sorted(res, key=lambda x: str(x))}
             except Exception as e:
                 r = _bucket(e)
